@@ -409,15 +409,10 @@ Proof.
   rewrite !N.eqb_refl. cbn [andb]. rewrite Hk. reflexivity.
 Qed.
 
-Lemma utf8_len_pos c : 1 <= utf8_len c.
-Proof. unfold utf8_len. repeat destruct (N.ltb _ _); lia. Qed.
-
-Lemma nonmulti_coll v : Nat.ltb 1 (byte_len v) = false -> v = [] \/ exists c, v = [c].
+Lemma nonmulti_coll (v : str) : Nat.ltb 1 (length v) = false -> v = [] \/ exists c, v = [c].
 Proof.
   intros H. apply Nat.ltb_ge in H.
-  destruct v as [|c1 [|c2 r]]; [left; reflexivity|right; eexists; reflexivity|].
-  cbn [byte_len fold_right] in H.
-  pose proof (utf8_len_pos c1). pose proof (utf8_len_pos c2). lia.
+  destruct v as [|c1 [|c2 r]]; [left; reflexivity|right; eexists; reflexivity|cbn in H; lia].
 Qed.
 
 Lemma single_fmt a s :
